@@ -113,6 +113,61 @@ def run(argv, cwd, stdin=None, env_extra=None, timeout=TIMEOUT, stdout_path=None
     return Result(list(argv), status, sig, out or b"", err or b"", timed_out, wall, max(ru0, ru1))
 
 
+def run_closing_pipe(argv, cwd, stdin=None, read_bytes=0, timeout=TIMEOUT, executable=None):
+    """Run argv with stdout on a pipe (capacity one page) whose reader takes `read_bytes` bytes and then closes;
+    SIGPIPE is ignored in the child (as under `trap '' PIPE`, nohup-style wrappers, many daemons), so the writes fail
+    with EPIPE instead of killing the process.  Returns (Result, pipe capacity)."""
+    import fcntl
+    rd, wr = os.pipe()
+    try:
+        cap = fcntl.fcntl(wr, 1031, 4096)        # F_SETPIPE_SZ
+    except OSError:
+        cap = 65536
+    if read_bytes == 0:
+        os.close(rd)
+        rd = None
+    base = _preexec(None, None)
+
+    def pre():
+        base()
+        signal.signal(signal.SIGPIPE, signal.SIG_IGN)
+    t0 = time.time()
+    stdin_fh = None
+    if stdin is not None:
+        # standard input comes from an unlinked temporary file (a pipe fed by us could dead-lock against the full
+        # stdout pipe)
+        stdin_fh = tempfile.TemporaryFile(dir=WORK_ROOT)
+        stdin_fh.write(stdin)
+        stdin_fh.seek(0)
+    p = subprocess.Popen(argv, cwd=cwd, env=dict(BASE_ENV), executable=executable,
+                         stdin=stdin_fh if stdin_fh is not None else subprocess.DEVNULL,
+                         stdout=wr, stderr=subprocess.PIPE, preexec_fn=pre)
+    os.close(wr)
+    if stdin_fh is not None:
+        stdin_fh.close()
+    got = bytearray()
+    if rd is not None:
+        while len(got) < read_bytes:
+            chunk = os.read(rd, read_bytes - len(got))
+            if not chunk:
+                break
+            got += chunk
+        os.close(rd)
+    timed_out = False
+    try:
+        _, err = p.communicate(None, timeout=timeout)
+    except subprocess.TimeoutExpired:
+        timed_out = True
+        try:
+            os.killpg(p.pid, signal.SIGKILL)
+        except OSError:
+            pass
+        _, err = p.communicate()
+    rc = p.returncode
+    status, sig = (rc, None) if rc >= 0 else (None, -rc)
+    return Result(list(argv), status, sig, bytes(got), err or b"", timed_out, time.time() - t0, 0), cap
+
+
 def confirm_timeout(argv, cwd, **kw):
     """A time-out only counts after three more time-outs in a row."""
     for _ in range(3):
